@@ -152,7 +152,7 @@ func (e *Exec) pathBudget() {
 		e.pathStart = time.Now()
 		return
 	}
-	if len(e.trace) > 40000 || time.Since(e.pathStart) > 240*time.Second {
+	if len(e.trace) > 40000 || time.Since(e.pathStart) > 120*time.Second {
 		msg := fmt.Sprintf("path bound exceeded (unwinding assertion): %d decisions, %.0f s, %d SSA steps", len(e.trace), time.Since(e.pathStart).Seconds(), e.steps)
 		e.boundCandidate(msg)
 		panic(pathEnd{kind: "bound", msg: msg})
